@@ -68,7 +68,15 @@ func (th *Thread) formatV(format string, argv []Value) (*StrV, []*IfaceV) {
 			lit(fmt.Sprintf(spec, nil))
 			continue
 		}
-		if g, ok := th.toGo(iv, nil, 0); ok {
+		// like fmt.handleMethods: Error()/String() are only consulted for verbs that are valid for strings
+		var g interface{}
+		var gok bool
+		if strings.ContainsRune("vsxXq", rune(verb)) {
+			g, gok = th.toGo(iv, nil, 0)
+		} else {
+			g, gok = th.toGo(iv.V, iv.T, 1)
+		}
+		if gok {
 			lit(fmt.Sprintf(spec, g))
 			continue
 		}
